@@ -65,7 +65,9 @@ func c09Gen(seed uint64, run int, tier string) *Case {
 		var ops []Op
 		for k := r.Range(2, 8); k > 0; k-- {
 			off := int64(len(ops)*4096 + r.Intn(100))
-			switch r.Intn(14) {
+			switch r.Intn(16) {
+			case 14, 15:
+				ops = append(ops, Op{K: "misc", A: []int64{int64(r.Intn(3))}})
 			case 12, 13:
 				// the non-blocking interface with the caller's own completion channel
 				ops = append(ops, Op{K: "rpcnb", A: []int64{int64(len(ops)), int64(r.Intn(3))}})
